@@ -1,6 +1,7 @@
 import Aoe.Lemmas.MapElev
 import Aoe.Lemmas.MapElevRange
 import Aoe.Lemmas.MapElevHist
+import Aoe.Lemmas.MapElevLower
 /-!
 # C20 – elevation editing raises exactly the requested area and keeps the terrain smooth
 
@@ -260,6 +261,24 @@ theorem setElevation_eq_pyramid_whole (s : Nat) (b e : Int) (m' : Map) (hs : 0 <
     rw [List.getElem?_map]
     exact this
   · rw [List.getElem?_eq_none (by simp; omega), List.getElem?_eq_none (by simp [pyramid]; omega)]
+
+/-- **lower_one_exact**: lowering a rectangle (more than one tile) to `e` on a map whose elevations all lie in
+`[e, e + 1]` - e.g. a flat map one level higher - changes *exactly* the requested area: every tile of the rectangle
+(`mem_rectRows`: the positions `x + y * size`, `x1 ≤ x ≤ x2`, `y1 ≤ y ≤ y2`) gets elevation `e`, every other tile is
+what it was.  Pinned and repaired code, every fuel with which the model returns. -/
+theorem lower_one_exact (fs : Bool) (fuel : Nat) (m m' : Map) (e : Int) (x1 y1 x2 y2 : Nat) (hwf : WF m)
+    (hx : x1 ≤ x2) (hx2 : x2 < m.size) (hy : y1 ≤ y2) (hy2 : y2 < m.size) (hns : ¬ (x1 = x2 ∧ y1 = y2))
+    (hm : ∀ (k : Nat) (t : Tile), m.tiles[k]? = some t → e ≤ t.elevation ∧ t.elevation ≤ e + 1)
+    (h : setElevation fs fuel m e x1 y1 (some (x2 : Int)) (some (y2 : Int)) = .ok m') :
+    ∀ k : Nat, m'.tiles[k]? = if k ∈ (rectRows m.size x1 y1 x2 y2).flatten
+      then (m.tiles[k]?).map (fun t => t.withElev e) else m.tiles[k]? := by
+  intro k
+  rw [setElevation_lower_one fs fuel m m' e x1 y1 x2 y2 hwf hx hx2 hy hy2 hns hm h, fill_spec]
+
+/-- non-vacuity: a flat 4×4 map of elevation 3 lowered to 2 on the rectangle (1,1)-(2,2); the call returns and the
+result is the closed form -/
+example : (setElevation false (elevFuel (flat 4 3)) (flat 4 3) 2 1 1 (some 2) (some 2)).map
+    (fun m => m.tiles.map (·.elevation)) = .ok (pyramid 4 3 2 1 1 2 2) := by decide +kernel
 
 /-- non-vacuity of `setElevation_eq_pyramid_level`: the call returns on a flat 3×3 map of elevation 2 -/
 example : ((setElevation true (elevFuel (flat 3 2)) (flat 3 2) 2 0 0 (some 1) (some 1)).map
